@@ -525,10 +525,14 @@ def gen_world(rng, cfg_name, size=3, prop_version=None, empty=False):
         if isinstance(t, DetailPropModel):
             t.model = t.model.swapcase()
         else:
-            t.sprite_scale = rand_f32(rng)
-            if rng.random() < 0.5:
-                t.dims_lower_right = (rand_f32(rng), rand_f32(rng))
-    twins(w.detail_props, dtweak, p=0.7)
+            # same sprite rectangle / partly the same: a sprite-table key that looks at fewer than all 8 numbers merges them
+            which = rng.choice(['scale', 'texcoord_lower_right', 'texcoord_upper_left', 'dims_lower_right', 'dims_upper_left'])
+            if which == 'scale':
+                t.sprite_scale = rand_f32(rng)
+            else:
+                setattr(t, which, (rand_f32(rng), rand_f32(rng)))
+    twins(w.detail_props, dtweak, p=0.8)
+    twins(w.detail_props, dtweak, p=0.5)
     return w
 
 
